@@ -490,3 +490,90 @@ func firstOr(xs []string, d string) string {
 	}
 	return d
 }
+
+// ignoreCaseSuffixAgreement (C20-k): the three front-ends lex the ignore-case suffix alike. In the two grammars the
+// suffix of a literal and of a class is the labelled item `ignore:` of LitMatcher / CharClassMatcher; in the
+// hand-written scanner it is the `if s.cur == 'i' { … }` after the closing delimiter in each of the routines that scan
+// a literal or a class. "Bare" means: an optional literal `i` with no further condition (the grammars), a test of the
+// current rune against 'i' and nothing else (the scanner). All sites must be of the same kind: if one of them looks
+// at what follows the `i` (e.g. !IdentifierPart) and another does not, `"a"item` is the ignore-case literal followed
+// by `tem` for one front-end and the plain literal followed by `item` for the other.
+func ignoreCaseSuffixAgreement(c *Ctx, rule string) {
+	r := c.R
+	g := c.G()
+	if g == nil {
+		return
+	}
+	repo := load.Repo()
+	kinds := map[string]string{}
+	for _, it := range []struct{ name, path string }{
+		{"grammar/bootstrap.peg", filepath.Join(repo, "bootstrap/cmd/bootstrap-pigeon/bootstrap_pigeon.go")},
+		{"grammar/pigeon.peg", filepath.Join(repo, "pigeon.go")},
+	} {
+		rules, err := canonRules(it.path)
+		if err != nil {
+			r.Fatal("%s: %v", rule, err)
+			return
+		}
+		for _, rn := range []string{"LitMatcher", "CharClassMatcher"} {
+			expr := rules[rn]
+			i := strings.Index(expr, `labeledExpr{label="ignore",expr=`)
+			if i < 0 {
+				continue
+			}
+			rest := expr[i+len(`labeledExpr{label="ignore",expr=`):]
+			kind := "conditional"
+			if strings.HasPrefix(rest, `zeroOrOneExpr{expr=litMatcher{val="i",ignoreCase=false,want="\"i\""}}`) {
+				kind = "bare"
+			}
+			kinds[it.name+":"+rn] = kind
+		}
+	}
+	bp := g.Pkg("bootstrap")
+	if bp == nil {
+		r.Fatal("%s: package bootstrap not loaded", rule)
+		return
+	}
+	for _, fd := range load.AllFuncDecls(bp) {
+		if fd.Body == nil || load.RecvName(fd) != "Scanner" || strings.HasSuffix(g.Fset.Position(fd.Pos()).Filename, "_test.go") {
+			continue
+		}
+		recv := recvName(fd)
+		ast.Inspect(fd.Body, func(n ast.Node) bool {
+			is, ok := n.(*ast.IfStmt)
+			if !ok {
+				return true
+			}
+			cond := nospace(is.Cond)
+			if !strings.Contains(cond, recv+".cur=='i'") {
+				return true
+			}
+			kind := "conditional"
+			if cond == recv+".cur=='i'" {
+				kind = "bare"
+			}
+			kinds["bootstrap/scan.go:"+fd.Name.Name] = kind
+			return true
+		})
+	}
+	var sites []string
+	count := map[string]int{}
+	for k, v := range kinds {
+		sites = append(sites, k+"="+v)
+		count[v]++
+	}
+	sort.Strings(sites)
+	r.Analysed["ignore_case_suffix_sites"] = sites
+	r.Check(len(count) == 1 && len(kinds) >= 3, rule, "A.front-ends:ignore-case-suffix-lexed-alike", "", "grammar/, bootstrap/scan.go",
+		fmt.Sprintf("%d sites (both grammars, the scanner's literal and class routines), all %s", len(kinds), firstOr(keysOfCount(count), "?")),
+		fmt.Sprintf("the ignore-case suffix is not lexed alike by the front-ends: %s - where one site looks at what follows the `i` and another takes it unconditionally, `\"a\"item` is an ignore-case literal followed by `tem` for one front-end and a plain literal followed by `item` for the other", strings.Join(sites, ", ")))
+}
+
+func keysOfCount(m map[string]int) []string {
+	var out []string
+	for k := range m {
+		out = append(out, k)
+	}
+	sort.Strings(out)
+	return out
+}
